@@ -6,6 +6,8 @@ package vc
 import (
 	"fmt"
 	"go/types"
+
+	"golang.org/x/tools/go/ssa"
 	"sort"
 	"strings"
 )
@@ -22,6 +24,7 @@ type Obligation struct {
 	Props    []string
 	FuncKey  string
 	Extra    []string // extra assertions local to this obligation
+	Parts    []string // when set: the goal is the conjunction of these; each part is solved separately
 	Internal string   // if set the obligation could not be generated: reason (undecided)
 }
 
@@ -50,6 +53,9 @@ type Unit struct {
 	cellStatic map[string]Val
 	hyps      []hyp
 	ghostSyms []string
+	ghostBlock map[string]*ssa.BasicBlock
+	quantHypLines map[int]bool // indices into lines: quantified loop-invariant assumptions
+	typingLines map[int]bool // indices into lines: heap typing axioms
 	frameInv  bool
 	allowedRefs map[string][]string
 	allowedWhole map[string]bool
@@ -69,7 +75,7 @@ type Unit struct {
 }
 
 func newUnit(eng *Engine, name string, mode Mode) *Unit {
-	u := &Unit{eng: eng, Name: name, mode: mode, declared: map[string]bool{}, keySort: map[string]string{}, kindCount: map[string]int{}, Notes: map[string]bool{}, specDone: map[string]*compiledSpec{}, entryHeld: map[string][]string{}, freshRefs: map[string]bool{}, keyElem: map[string]types.Type{}}
+	u := &Unit{eng: eng, Name: name, mode: mode, declared: map[string]bool{}, keySort: map[string]string{}, kindCount: map[string]int{}, Notes: map[string]bool{}, specDone: map[string]*compiledSpec{}, quantHypLines: map[int]bool{}, typingLines: map[int]bool{}, entryHeld: map[string][]string{}, freshRefs: map[string]bool{}, keyElem: map[string]types.Type{}}
 	u.safety = map[string]bool{"index": true, "slice": true, "div": true, "makelen": true, "typeassert": true, "overflow": !mode.BV, "nil": false, "panic": true, "shift": true}
 	u.prelude()
 	return u
@@ -222,7 +228,11 @@ func (u *Unit) structSort(t types.Type, st *types.Struct) string {
 func (u *Unit) structCtor(t types.Type) string { return q("mk-" + u.structName(t)) }
 func (u *Unit) fieldSel(t types.Type, i int) string {
 	st := t.Underlying().(*types.Struct)
-	return q(fmt.Sprintf("%s.%s", u.structName(t), st.Field(i).Name()))
+	name := st.Field(i).Name()
+	if name == "_" {
+		name = fmt.Sprintf("_%d", i)
+	}
+	return q(fmt.Sprintf("%s.%s", u.structName(t), name))
 }
 
 // zero value of a type
@@ -383,14 +393,44 @@ func (u *Unit) addObl(kind, desc, pos, reach, goal string) *Obligation {
 }
 
 // Script renders the SMT-LIB text for one obligation.
-func (o *Obligation) Script(withModel bool) string {
+func (o *Obligation) Script(withModel bool) string { return o.ScriptVariant(withModel, false) }
+
+// HasInstanceVariant: the obligation carries hypothesis instances, so a variant without the
+// quantified loop-invariant assumptions (a subset of the assumptions: sound) is worth trying.
+func (o *Obligation) HasInstanceVariant() bool {
+	return (len(o.Unit.quantHypLines) > 0 || len(o.Unit.typingLines) > 0) && !o.Cover
+}
+
+func (o *Obligation) ScriptVariant(withModel, instancesOnly bool) string {
+	return o.scriptFor(withModel, instancesOnly, o.Goal)
+}
+
+func (o *Obligation) scriptFor(withModel, instancesOnly bool, goal string) string {
+	v := 0
+	if instancesOnly {
+		v = 2
+	}
+	return o.scriptV(withModel, v, goal)
+}
+
+// scriptV: variant 0 = all assumptions; 1 = without the heap typing axioms; 2 = additionally
+// without the quantified invariant / callee-post assumptions (their instances at the goal's
+// skolem constants stay). Variants 1 and 2 assume less, so their unsat answers are as good.
+func (o *Obligation) scriptV(withModel bool, variant int, goal string) string {
+	instancesOnly := variant == 2
 	var sb strings.Builder
 	sb.WriteString("; obligation " + o.Name + "\n; " + o.Desc + "\n; at " + o.Pos + "\n")
 	if withModel {
 		sb.WriteString("(set-option :produce-models true)\n")
 	}
 	sb.WriteString("(set-logic ALL)\n")
-	for _, l := range o.Unit.lines {
+	for i, l := range o.Unit.lines {
+		if instancesOnly && o.Unit.quantHypLines[i] {
+			continue
+		}
+		if variant >= 1 && o.Unit.typingLines[i] {
+			continue
+		}
 		sb.WriteString(l)
 		sb.WriteByte('\n')
 	}
@@ -399,9 +439,9 @@ func (o *Obligation) Script(withModel bool) string {
 		sb.WriteByte('\n')
 	}
 	if o.Cover {
-		fmt.Fprintf(&sb, "(assert %s)\n(assert %s)\n", o.Reach, o.Goal)
+		fmt.Fprintf(&sb, "(assert %s)\n(assert %s)\n", o.Reach, goal)
 	} else {
-		fmt.Fprintf(&sb, "(assert %s)\n(assert (not %s))\n", o.Reach, o.Goal)
+		fmt.Fprintf(&sb, "(assert %s)\n(assert (not %s))\n", o.Reach, goal)
 	}
 	sb.WriteString("(check-sat)\n")
 	if withModel {
@@ -432,11 +472,13 @@ func (u *Unit) heapTyping(key, c string) {
 		el := "(select (select " + c + " r) i)"
 		if ti := u.typeInvariant(el, et, 0); ti != "" {
 			u.emit("(assert (forall ((r Int) (i %s)) (! %s :pattern (%s))))", I, ti, el)
+			u.typingLines[len(u.lines)-1] = true // optional fact: left out of the light variants
 		}
 	case strings.HasPrefix(key, "H."), strings.HasPrefix(key, "C."):
 		el := "(select " + c + " r)"
 		if ti := u.typeInvariant(el, et, 0); ti != "" {
 			u.emit("(assert (forall ((r Int)) (! %s :pattern (%s))))", ti, el)
+			u.typingLines[len(u.lines)-1] = true
 		}
 	}
 }
